@@ -24,26 +24,23 @@ Inductive kind := KCreated | KChanged | KDeleted.        (* FileEventCreated = 1
 
 Inductive item := Own (e : err) | Req (t : file) (e : err).
 
-(* proposed repairs (DESIGN 6 rows 12a, 12b, 12 and the empty-file shortcut found here); all false = the code as it is *)
-Record fixes := { fix12a : bool; fix12b : bool; fix_index : bool; fix_empty : bool }.
-Definition no_fix : fixes := {| fix12a := false; fix12b := false; fix_index := false; fix_empty := false |}.
-Definition all_fix : fixes := {| fix12a := true; fix12b := true; fix_index := true; fix_empty := true |}.
-(* the repairs that are in /repo now (fix: commits 0734f52 12a, af1552a 12b, 85b8991 empty shortcut); the index repair
-   (work/fixes/C08-12-index-remove.diff) is not applied yet: switching it on later is the one word `fix_index := true` here *)
-Definition deployed : fixes := {| fix12a := true; fix12b := true; fix_index := true; fix_empty := true |}.
+(* repairs (DESIGN 6 rows 12a, 12b, 12, the empty-file shortcut found in round 1, and the round-2 repairs of the classes
+   unhidden and watched_dirty); all false = the code before any fix: commit *)
+Record fixes := { fix12a : bool; fix12b : bool; fix_index : bool; fix_empty : bool;
+                  fix_unhidden : bool;     (* fixes/C08-unhidden.diff: fileChangeCleanMap, re-hidden by pushAllDiagnosticsAgain *)
+                  fix_watched : bool }.    (* fixes/C08-watched-dirty.diff: a watched-file event keeps the live entries *)
+Definition no_fix : fixes := {| fix12a := false; fix12b := false; fix_index := false; fix_empty := false;
+                                fix_unhidden := false; fix_watched := false |}.
+Definition all_fix : fixes := {| fix12a := true; fix12b := true; fix_index := true; fix_empty := true;
+                                 fix_unhidden := true; fix_watched := true |}.
+(* the code of round 1: fix: commits 0734f52 12a, af1552a 12b, 85b8991 empty shortcut, ec76861 index *)
+Definition round1 : fixes := {| fix12a := true; fix12b := true; fix_index := true; fix_empty := true;
+                                fix_unhidden := false; fix_watched := false |}.
+(* the repairs that are in /repo now: round 1 + fixes/C08-unhidden.diff + fixes/C08-watched-dirty.diff *)
+Definition deployed : fixes := {| fix12a := true; fix12b := true; fix_index := true; fix_empty := true;
+                                  fix_unhidden := true; fix_watched := true |}.
 
-(* file sets as strictly increasing lists (canonical: equal sets are equal lists) *)
-Definition fmem (f : file) (l : list file) : bool := existsb (N.eqb f) l.
-Fixpoint fadd (f : file) (l : list file) : list file :=
-  match l with
-  | [] => [f]
-  | x :: r => if f <? x then f :: l else if f =? x then l else x :: fadd f r
-  end.
-Fixpoint frem (f : file) (l : list file) : list file :=
-  match l with
-  | [] => []
-  | x :: r => if f =? x then frem f r else x :: frem f r
-  end.
+(* file sets: fmem / fadd / frem are in Model/Diag.v *)
 Definition fset_of (l : list file) : list file := fold_right fadd [] l.
 
 Definition non6 (e : err) : bool := negb (etype e =? 6).      (* common.CheckErrorNoFile *)
@@ -239,13 +236,13 @@ Section Model.
   Record server := { pj : proj; cache : amap txt; ds : dstate }.
 
   Definition push_again (s : server) (p : proj) : server * list publish :=
-    let '(d, ps) := push_all_again (fix12a fx) (ds s) (all_errs p) in
+    let '(d, ps) := push_all_again (fix12a fx) (fix_unhidden fx) (ds s) (all_errs p) in
     ({| pj := p; cache := cache s; ds := d |}, ps).
 
   (* TextDocumentDidOpen *)
   Definition did_open (dk : amap txt) (s : server) (f : file) (t : txt) : server * list publish :=
     let p0 := set_lru (pj s) (frem f (p_lru (pj s))) in
-    let s0 := {| pj := p0; cache := aset (cache s) f t; ds := ds s |} in
+    let s0 := {| pj := p0; cache := aset (cache s) f t; ds := unmark_clean (ds s) f |} in
     let '(s1, ps1) :=
       if fmem f (p_files p0) then (s0, [])
       else let '(p1, chg) := handle_events dk p0 [(f, KCreated)] in
@@ -262,7 +259,7 @@ Section Model.
       let el := (syn A) t in
       if is_nil el then
         let '(d1, ps1) := clear_change (ds s) f in
-        ({| pj := p1; cache := aset (cache s) f t; ds := d1 |}, ps1 ++ clear_syntax d1 f)
+        ({| pj := p1; cache := aset (cache s) f t; ds := mark_clean d1 f |}, ps1 ++ clear_syntax d1 f)
       else
         let '(d1, ps1) := insert_change (ds s) f el in
         ({| pj := p1; cache := aset (cache s) f t; ds := d1 |}, ps1)
@@ -279,16 +276,19 @@ Section Model.
   (* TextDocumentDidClose. [fix12b] = proposed repair: re-push the full saved list of the closed file. *)
   Definition did_close (s : server) (f : file) : server * list publish :=
     let p0 := set_lru (pj s) (frem f (p_lru (pj s))) in
-    let '(d1, ps1) := clear_change (ds s) f in
+    let '(d0, ps1) := clear_change (ds s) f in
+    let d1 := unmark_clean d0 f in
     let ps1b := if fix12b fx then push_file_diag d1 f false else [] in
     if (in_dir A) f then ({| pj := p0; cache := adel (cache s) f; ds := d1 |}, ps1 ++ ps1b)
     else ({| pj := remove_file p0 f; cache := adel (cache s) f; ds := remove_saved d1 f |},
           ps1 ++ ps1b ++ clear_one f).
 
-  (* WorkspaceChangeWatchedFiles *)
+  (* WorkspaceChangeWatchedFiles. [fix_watched] = repair: the ClearChangeFileErr call per named file is gone. *)
   Definition did_watched (dk : amap txt) (s : server) (evs : list (file * kind)) : server * list publish :=
-    let '(d1, ps1) := fold_left (fun dp ev => let '(d', ps') := clear_change (fst dp) (fst ev) in (d', snd dp ++ ps'))
-                                evs (ds s, []) in
+    let '(d1, ps1) :=
+      if fix_watched fx then (ds s, [])
+      else fold_left (fun dp ev => let '(d', ps') := clear_change (fst dp) (fst ev) in (d', snd dp ++ ps'))
+                     evs (ds s, []) in
     let s1 := {| pj := pj s; cache := cache s; ds := d1 |} in
     if is_nil evs then (s1, ps1)
     else
@@ -305,7 +305,7 @@ Section Model.
   Definition init_server (dk : amap txt) : server * list publish :=
     let p := init_proj dk in
     let e := all_errs p in
-    ({| pj := p; cache := []; ds := {| saved := e; live := [] |} |}, push_all_init e).
+    ({| pj := p; cache := []; ds := {| saved := e; live := []; clean := [] |} |}, push_all_init e).
 
   (* ---- the world: disk + server + what the editor knows (its buffers, which of them have unsaved edits) ---- *)
   Inductive event :=
